@@ -213,8 +213,9 @@ def run(ctx):
             # the placeholder renders the u32 with Display
             disp = tb.calls_to(r"Argument::<.*>::new_display$")
             alln = tb.calls_to(r"Argument::<.*>::new_")
-            ctx.check(len(disp) == len(alln) and all("new_display::<u32>" in d.full for d in disp), "C12-R4", "token-display",
-                      "the number is rendered with Display for u32 (canonical decimal)", tb.where())
+            nums = [d for d in disp if not re.search(r"new_display::<&?(str|std::string::String|alloc::string::String)>", d.full)]
+            ctx.check(len(disp) == len(alln) and bool(nums) and all("new_display::<u32>" in d.full for d in nums), "C12-R4", "token-display",
+                      "the number is rendered with Display for u32 (canonical decimal); every other placeholder is Display of a string (%d/%d)" % (len(nums), len(disp)), tb.where())
     # R5 docs
     repo = ctx.extra.get("repo", "/repo")
     doc = os.path.join(repo, "docs", "source", "using-log-references.rst")
